@@ -17,7 +17,8 @@
 (* (OrderedDict(b=1, a=2) # OrderedDict(a=2, b=1)), and "same shape and container types" means  *)
 (* the same keys in the same order.                                                             *)
 (* Values are the tagged pairs of Values.tla; a dict is <<"m", seq of <<key, value>>>> in key  *)
-(* order (string keys), an awaitable leaf is <<"aw", <<id, kind>>>>.                            *)
+(* order (string keys), an awaitable leaf is <<"aw", <<id, kind, dep>>>>, a non-awaitable      *)
+(* look-alike leaf is <<"look", <<id, kind>>>>.                                                 *)
 EXTENDS Values, TLC
 
 IsMap(v)  == Tag(v) \in {"m", "om"}
@@ -241,13 +242,48 @@ AsTuple(v) == IF IsNone(v) THEN VTup(<<>>)
 StarArgsCorner(v) == IsStarArgs(AsTuple(v))
 
 \* ---------------------------------------------------------------------------------------------
-\* Trees with awaitables (waiter).  An awaitable leaf <<"aw", <<id, kind, dep>>>> stands for a
-\* future ("fut"), an un-started coroutine ("coro") or a running task ("task") that will deliver
-\* V[id]; the same id may occur more than once (one future placed twice).  A coroutine only makes
-\* progress once somebody has started (awaited) it; dep # 0 says that it can, in addition, only
-\* finish after awaitable dep has been *started* (dep's first step releases it).
+\* Trees with awaitables (waiter).  An awaitable leaf <<"aw", <<id, kind, dep>>>> stands for an
+\* object that can be used in an `await` expression and will deliver V[id]; the same id may occur
+\* more than once (one future / one awaitable object placed twice).  "Awaitable" is the notion of
+\* the language, not a list of asyncio classes - the KIND says how the awaitable is realised:
+\*   "fut"      an asyncio Future                      "task"    a running Task
+\*   "coro"     an un-started coroutine object
+\*   "obj"      a plain object whose __await__ is a generator that yields to the loop until released
+\*   "objfut"   a plain object whose __await__ hands out the iterator of a future
+\*   "objcoro"  a plain object whose __await__ hands out the iterator of a fresh coroutine
+\*   "objobj"   a plain object whose __await__ delegates to another plain awaitable object
+\*   "gather"   the future asyncio.gather(one future) returns: its result is the LIST of the result
+\*   "shield"   the future asyncio.shield(a running task) returns
+\*   "done"     a future whose result was set before waiter was called
+\*   "objnow"   a plain object whose __await__ returns an already finished iterator (never suspends)
+\*   "coronow"  an un-started coroutine that returns without ever suspending
+\*   "gencoro"  a generator-based coroutine (types.coroutine): awaitable for the language although
+\*              not an instance of collections.abc.Awaitable (legacy; see LegacyKinds)
+\* What the machine needs to know about a kind:
+\*   LazyKinds  run only once somebody awaits them (the driver can see them take their first step);
+\*              the others make progress on their own
+\*   NowKinds   are complete without anybody releasing them: they deliver as soon as they are awaited
+\*   DepKinds   can, in addition, be made to wait until awaitable dep # 0 has been *started*
+\*              (dep's first step releases them) before they finish
+\*   Deliver    what `await` gives for the result v
+\* A look-alike leaf <<"look", <<id, kind>>>> is an object that is NOT awaitable although it looks
+\* the part: a generator object ("gen"), an async generator object ("agen"), an async function that
+\* has not been called ("afn"), a class that defines __await__ ("cls": the class, not an instance),
+\* an instance that carries __await__ as an instance attribute ("inst": `await` looks on the type),
+\* an object with attributes `await`, `result`, `done` ("attr").  It is an ordinary leaf: the very
+\* same object must be in the result.
 \* ---------------------------------------------------------------------------------------------
+EagerKinds  == {"fut", "task", "gather", "shield", "done"}
+LazyKinds   == {"coro", "obj", "objfut", "objcoro", "objobj", "objnow", "coronow", "gencoro"}
+NowKinds    == {"done", "objnow", "coronow"}
+DepKinds    == {"coro", "obj", "objcoro", "objobj", "gencoro"}
+LegacyKinds == {"gencoro"}
+AllAwKinds  == EagerKinds \cup LazyKinds
+LookKinds   == {"gen", "agen", "afn", "cls", "inst", "attr"}
+Deliver(kind, v) == IF kind = "gather" THEN VLst(<<v>>) ELSE v
+
 IsAw(v) == Tag(v) = "aw"
+IsLook(v) == Tag(v) = "look"
 AwId(v) == Pay(v)[1]
 AwKind(v) == Pay(v)[2]
 AwDep(v) == Pay(v)[3]
@@ -259,30 +295,45 @@ RECURSIVE AwLeaves(_)
 AwLeaves(x) == IF IsAw(x) THEN {x}
                ELSE IF IsCont(x) THEN UNION {AwLeaves(Child(x, i)) : i \in 1..Width(x)}
                ELSE {}
-CoroIds(x) == {AwId(a) : a \in {b \in AwLeaves(x) : AwKind(b) = "coro"}}     \* not started until waiter awaits them
+RECURSIVE LookLeaves(_)
+LookLeaves(x) == IF IsLook(x) THEN {x}
+                 ELSE IF IsCont(x) THEN UNION {LookLeaves(Child(x, i)) : i \in 1..Width(x)}
+                 ELSE {}
+IdsOfKinds(x, K) == {AwId(a) : a \in {b \in AwLeaves(x) : AwKind(b) \in K}}
+LazyIds(x)  == IdsOfKinds(x, LazyKinds)          \* not started until waiter awaits them
+NowIds(x)   == IdsOfKinds(x, NowKinds)           \* complete without being released
+GatedIds(x) == AwIds(x) \ NowIds(x)              \* complete when the outside world (the schedule) says so
+DepIds(x)   == IdsOfKinds(x, DepKinds)           \* may be made to wait for another one to start
+CoroIds(x)  == IdsOfKinds(x, {"coro"})
 DepsOf(x, i) == {AwDep(a) : a \in {b \in AwLeaves(x) : AwId(b) = i}} \ {0}   \* who must have started before i can finish
-\* the same structure with the dependency of every coroutine set by dep (a function on CoroIds)
+\* well-formed: known kinds, one kind per id, only DepKinds wait for somebody
+AwWellFormed(x) == /\ \A a \in AwLeaves(x) : AwKind(a) \in AllAwKinds /\ (AwDep(a) # 0 => AwKind(a) \in DepKinds /\ AwDep(a) \in AwIds(x))
+                   /\ \A a, b \in AwLeaves(x) : AwId(a) = AwId(b) => a = b
+                   /\ \A a \in LookLeaves(x) : Pay(a)[2] \in LookKinds
+\* the same structure with the dependency of every awaitable that can wait set by dep (a function on DepIds)
 RECURSIVE SetDep(_, _)
 SetDep(x, dep) ==
-    IF IsAw(x) THEN (IF AwKind(x) = "coro" THEN <<"aw", <<AwId(x), "coro", dep[AwId(x)]>>>> ELSE x)
+    IF IsAw(x) THEN (IF AwKind(x) \in DepKinds THEN <<"aw", <<AwId(x), AwKind(x), dep[AwId(x)]>>>> ELSE x)
     ELSE IF IsSeq(x) THEN <<Tag(x), [k \in 1..Width(x) |-> SetDep(Pay(x)[k], dep)]>>
     ELSE IF IsMap(x) THEN <<Tag(x), [k \in 1..Width(x) |-> <<Pay(x)[k][1], SetDep(Pay(x)[k][2], dep)>>]>>
     ELSE x
 \* the structure with awaitable i replaced, in place, by its result
 RECURSIVE Fill(_, _, _)
 Fill(x, i, val) ==
-    IF IsAw(x) THEN (IF AwId(x) = i THEN val ELSE x)
+    IF IsAw(x) THEN (IF AwId(x) = i THEN Deliver(AwKind(x), val) ELSE x)
     ELSE IF IsSeq(x) THEN <<Tag(x), [k \in 1..Width(x) |-> Fill(Pay(x)[k], i, val)]>>
     ELSE IF IsMap(x) THEN <<Tag(x), [k \in 1..Width(x) |-> <<Pay(x)[k][1], Fill(Pay(x)[k][2], i, val)>>]>>
     ELSE x
 \* law: every awaitable whose id is in `done` replaced by its result (V: id -> value)
 RECURSIVE Subst(_, _, _)
 Subst(x, done, V) ==
-    IF IsAw(x) THEN (IF AwId(x) \in done THEN V[AwId(x)] ELSE x)
+    IF IsAw(x) THEN (IF AwId(x) \in done THEN Deliver(AwKind(x), V[AwId(x)]) ELSE x)
     ELSE IF IsSeq(x) THEN <<Tag(x), [k \in 1..Width(x) |-> Subst(Pay(x)[k], done, V)]>>
     ELSE IF IsMap(x) THEN <<Tag(x), [k \in 1..Width(x) |-> <<Pay(x)[k][1], Subst(Pay(x)[k][2], done, V)>>]>>
     ELSE x
-\* a whole schedule at once: the awaitables complete in the order given
+\* a whole schedule at once: the awaitables complete in the order given (Schedule: the awaitables
+\* that need nobody's release have delivered, the others complete in the order of their release)
 RECURSIVE RunOrder(_, _, _, _)
 RunOrder(x, order, k, V) == IF k > Len(order) THEN x ELSE RunOrder(Fill(x, order[k], V[order[k]]), order, k + 1, V)
+Schedule(x, order, V) == RunOrder(Subst(x, NowIds(x), V), order, 1, V)
 =============================================================================
